@@ -93,7 +93,10 @@ def check_listing(ctx, cache, model: RLru, after: str) -> bool:
     return True
 
 
-def run_sequence(ctx, cls_name: str, cap: int, ops: list, record_case: bool = True) -> bool:
+FALSY = [None, 0, "", False, "dflt", 0.0, (), None]  # values a lookup must not mistake for "absent" (or for its own default)
+
+
+def run_sequence(ctx, cls_name: str, cap: int, ops: list, record_case: bool = True, vals: str = "unique") -> bool:
     """Run ops on a fresh real cache and the model; compare after each op. Returns False on violation."""
     cache = CLASSES[cls_name](cap)
     model = RLru(cap)
@@ -102,30 +105,30 @@ def run_sequence(ctx, cls_name: str, cap: int, ops: list, record_case: bool = Tr
         v = None
         if op == "set":
             vcount += 1
-            v = f"{k}{vcount}"
+            v = f"{k}{vcount}" if vals == "unique" else FALSY[(vcount + len(k)) % len(FALSY)]
         elif op == "get":
             v = "dflt"
         try:
             got = real_apply(cache, op, k, v)
         except InvariantBroken as e:
             if record_case:
-                ctx.current_case = {"kind": "seq", "cls": cls_name, "cap": cap, "ops": [list(o) for o in ops[: i + 1]]}
+                ctx.current_case = {"kind": "seq", "cls": cls_name, "cap": cap, "ops": [list(o) for o in ops[: i + 1]], "vals": vals}
             ctx.violation("seq:invariant-len<=capacity", f"icontract invariant len(_cache) <= capacity broken after {op}({k}): {e}")
             return False
         except Exception as e:  # noqa: BLE001
             if record_case:
-                ctx.current_case = {"kind": "seq", "cls": cls_name, "cap": cap, "ops": [list(o) for o in ops[: i + 1]]}
+                ctx.current_case = {"kind": "seq", "cls": cls_name, "cap": cap, "ops": [list(o) for o in ops[: i + 1]], "vals": vals}
             ctx.violation(f"seq:{op}-raises-{type(e).__name__}", f"{op}({k}) raised {type(e).__name__}: {e}")
             return False
         exp = model.apply(op, k, v)
         if got != exp:
             if record_case:
-                ctx.current_case = {"kind": "seq", "cls": cls_name, "cap": cap, "ops": [list(o) for o in ops[: i + 1]]}
+                ctx.current_case = {"kind": "seq", "cls": cls_name, "cap": cap, "ops": [list(o) for o in ops[: i + 1]], "vals": vals}
             ctx.violation(f"seq:{op}-result", f"{cls_name}(capacity={cap}) after {ops[:i]}: {op}({k}) returned {got!r}, model says {exp!r}")
             return False
         saved = ctx.current_case
         if record_case:
-            ctx.current_case = {"kind": "seq", "cls": cls_name, "cap": cap, "ops": [list(o) for o in ops[: i + 1]]}
+            ctx.current_case = {"kind": "seq", "cls": cls_name, "cap": cap, "ops": [list(o) for o in ops[: i + 1]], "vals": vals}
         ok = check_listing(ctx, cache, model, op)
         ctx.current_case = saved
         if not ok:
@@ -391,7 +394,7 @@ def judge(ctx: core.Ctx, case: dict[str, Any]) -> None:
     if kind == "seq":
         ops = [tuple(o) for o in case["ops"]]
         try:
-            ok = run_sequence(ctx, case["cls"], case["cap"], ops, record_case=False)
+            ok = run_sequence(ctx, case["cls"], case["cap"], ops, record_case=False, vals=case.get("vals", "unique"))
         except InvariantBroken as e:
             ctx.violation("seq:invariant-len<=capacity", f"invariant broken: {e}")
             ok = False
@@ -406,7 +409,7 @@ def judge(ctx: core.Ctx, case: dict[str, Any]) -> None:
         n = 0
         for tail in itertools.product(OPS, repeat=L - len(pre)):
             ops = pre + list(tail)
-            if not run_sequence(ctx, case["cls"], case["cap"], ops):
+            if not run_sequence(ctx, case["cls"], case["cap"], ops, vals=case.get("vals", "unique")):
                 ctx.evaluations += 1
                 return
             n += 1
@@ -431,7 +434,7 @@ def cases(ctx: core.Ctx):
     for cls in CLASSES:
         for cap in (1, 2, 3, 4):
             for pre in itertools.product(OPS, repeat=plen):
-                blocks.append({"kind": "block", "cls": cls, "cap": cap, "length": L, "prefix": [list(o) for o in pre]})
+                blocks.append({"kind": "block", "cls": cls, "cap": cap, "length": L, "prefix": [list(o) for o in pre], "vals": "falsy" if len(blocks) % 3 == 1 else "unique"})
     ctx.extra["exhaustive"] = True
     ctx.extra["exhaustive_sequence_length"] = L
     # a few concurrent histories first, so the concurrency monitors are always reached within the time cap
@@ -447,7 +450,7 @@ def cases(ctx: core.Ctx):
     # random long sequences
     for _ in range(ctx.budget(300, 20000)):
         n = rng.randint(5, 200)
-        yield {"kind": "seq", "cls": rng.choice(list(CLASSES)), "cap": rng.randint(1, 4), "ops": [list(rng.choice(OPS)) for _ in range(n)]}
+        yield {"kind": "seq", "cls": rng.choice(list(CLASSES)), "cap": rng.randint(1, 4), "ops": [list(rng.choice(OPS)) for _ in range(n)], "vals": rng.choice(["unique", "falsy"])}
     # remaining time: more concurrent histories and stress
     for i in range(ctx.budget(400, 40000)):
         if i % 25 == 24:
